@@ -26,14 +26,15 @@ Print Assumptions validate_total_pinned_refuted.
 (* ---- soundness.  U: a single-machine document in which only states carry ids and for which the repaired
    validator reports no FATAL issue satisfies wf_chartb: unique non-empty ids, existing targets, initial
    attributes and <initial> transitions into descendants, one unconditional default transition per history
-   into its scope, pairwise compatible target sets, structural elements below legal parents. *)
+   to proper states (no <history>/<initial> element) in its scope, pairwise compatible target sets, structural
+   elements below legal parents. *)
 Theorem validate_sound : forall d l,
   single_machine d = true -> plain_ids d = true ->
   validate vv_fixed d = Ok l -> no_fatal l = true -> wf_chartb d = true.
 Proof. intros d l. apply validate_sound_lemma. exact vv_fixed_repaired. Qed.
 Print Assumptions validate_sound.
 
-(* the same for any variant with the five structural repairs, whatever getStates() and the id rule do *)
+(* the same for any variant with the six structural repairs, whatever getStates() and the id rule do *)
 Theorem validate_sound_variants : forall v d l,
   repaired_structure v -> single_machine d = true -> plain_ids d = true ->
   validate v d = Ok l -> no_fatal l = true -> wf_chartb d = true.
@@ -42,35 +43,37 @@ Print Assumptions validate_sound_variants.
 
 (* refuted for the code as found, once per defect: a common <parallel> ancestor anywhere above two targets,
    the target set of <scxml initial>, <initial><transition/> without target, a state below <datamodel>,
-   initial="" *)
+   initial="", a history whose default transition names the history itself *)
 Theorem validate_sound_pinned_refuted :
   accepted_not_wf vv_pinned wit_any_parallel /\ accepted_not_wf vv_pinned wit_root_initial /\
   accepted_not_wf vv_pinned wit_initial_no_target /\ accepted_not_wf vv_pinned wit_nesting /\
-  accepted_not_wf vv_pinned wit_empty_initial.
+  accepted_not_wf vv_pinned wit_empty_initial /\ accepted_not_wf vv_pinned wit_hist_self.
 Proof.
   repeat split; first [apply pinned_sound_refuted_any_parallel | apply pinned_sound_refuted_root_initial
                       | apply pinned_sound_refuted_initial_no_target | apply pinned_sound_refuted_nesting
-                      | apply pinned_sound_refuted_empty_initial].
+                      | apply pinned_sound_refuted_empty_initial | apply pinned_sound_refuted_hist_self].
 Qed.
 Print Assumptions validate_sound_pinned_refuted.
 
-(* ... and each of the five defects alone loses soundness *)
+(* ... and each of the six defects alone loses soundness (vv_hist_unchecked: the repaired code without
+   patches/C19-history-default-pseudo-target.diff) *)
 Theorem validate_sound_each_switch_refuted :
   accepted_not_wf {| vv_getstates_null := false; vv_any_parallel_ancestor := true; vv_root_initial_unchecked := false;
                      vv_initial_target_optional := false; vv_id_required := false; vv_nesting_warning_only := false;
-                     vv_empty_initial_unchecked := false |} wit_any_parallel /\
+                     vv_empty_initial_unchecked := false; vv_hist_pseudo_target_unchecked := false |} wit_any_parallel /\
   accepted_not_wf {| vv_getstates_null := false; vv_any_parallel_ancestor := false; vv_root_initial_unchecked := true;
                      vv_initial_target_optional := false; vv_id_required := false; vv_nesting_warning_only := false;
-                     vv_empty_initial_unchecked := false |} wit_root_initial /\
+                     vv_empty_initial_unchecked := false; vv_hist_pseudo_target_unchecked := false |} wit_root_initial /\
   accepted_not_wf {| vv_getstates_null := false; vv_any_parallel_ancestor := false; vv_root_initial_unchecked := false;
                      vv_initial_target_optional := true; vv_id_required := false; vv_nesting_warning_only := false;
-                     vv_empty_initial_unchecked := false |} wit_initial_no_target /\
+                     vv_empty_initial_unchecked := false; vv_hist_pseudo_target_unchecked := false |} wit_initial_no_target /\
   accepted_not_wf {| vv_getstates_null := false; vv_any_parallel_ancestor := false; vv_root_initial_unchecked := false;
                      vv_initial_target_optional := false; vv_id_required := false; vv_nesting_warning_only := true;
-                     vv_empty_initial_unchecked := false |} wit_nesting /\
+                     vv_empty_initial_unchecked := false; vv_hist_pseudo_target_unchecked := false |} wit_nesting /\
   accepted_not_wf {| vv_getstates_null := false; vv_any_parallel_ancestor := false; vv_root_initial_unchecked := false;
                      vv_initial_target_optional := false; vv_id_required := false; vv_nesting_warning_only := false;
-                     vv_empty_initial_unchecked := true |} wit_empty_initial.
+                     vv_empty_initial_unchecked := true; vv_hist_pseudo_target_unchecked := false |} wit_empty_initial /\
+  accepted_not_wf vv_hist_unchecked wit_hist_self.
 Proof. exact each_switch_matters. Qed.
 Print Assumptions validate_sound_each_switch_refuted.
 
@@ -169,13 +172,23 @@ Theorem wf_initial_transitions_are_children : forall d i,
 Proof. exact wf_initial_transitions_are_children_lemma. Qed.
 Print Assumptions wf_initial_transitions_are_children.
 
-(* validate_sound's side condition plain_ids cannot be dropped (either variant): an <initial id="s3"> shadows the
-   state s3 in getState() and so in the scope check of a history's default transition *)
+(* validate_sound's side condition plain_ids cannot be dropped as long as pseudo-state targets of a history's default
+   transition are not reported (vv_pinned, vv_hist_unchecked): an <initial id="s3"> shadows the state s3 in getState()
+   and so in the scope check of a history's default transition.  With the check IHistPseudoTarget (vv_fixed) this
+   witness is reported; whether plain_ids is still necessary there is open (the proof of validate_sound uses it). *)
 Theorem validate_sound_needs_plain_ids :
   single_machine wit_initial_id = true /\ plain_ids wit_initial_id = false /\
-  exists l, validate vv_fixed wit_initial_id = Ok l /\ no_fatal l = true /\ wf_chartb wit_initial_id = false.
+  exists l, validate vv_hist_unchecked wit_initial_id = Ok l /\ no_fatal l = true /\ wf_chartb wit_initial_id = false.
 Proof. exact sound_needs_plain_ids. Qed.
 Print Assumptions validate_sound_needs_plain_ids.
+Theorem validate_reports_initial_id_witness : exists l, validate vv_fixed wit_initial_id = Ok l /\ no_fatal l = false.
+Proof. exact initial_id_rejected. Qed.
+Print Assumptions validate_reports_initial_id_witness.
+
+(* the repaired validator reports a history whose default transition names the history itself *)
+Theorem validate_reports_history_default_to_history : exists l, validate vv_fixed wit_hist_self = Ok l /\ no_fatal l = false.
+Proof. exact hist_self_rejected. Qed.
+Print Assumptions validate_reports_history_default_to_history.
 
 (* ===================== work package `val`: from the validator's verdict to legal runs ===================== *)
 From V Require Import Chart Exec Large Fast Interp Legal LegalRun LegalHistRun LegalHistWf LegalHistFastRun FlattenWf FlattenWfRun LegalOracle LegalHistOracle.
@@ -218,11 +231,13 @@ Print Assumptions validated_tree_facts.
      ct_rootb            the root has a child state                       (root_child_needed_refuted)
      vb_hist_disjointb   no state below the parent of a deep history owns a history: known finding C02-K1
                                                                           (validation_accepts_C02_K1_refuted)
-     vb_default_properb  the default transition of a <history> names proper states, not a <history>
-                                                                          (validation_accepts_history_default_to_history_refuted)
      vb_hist_parentb     no <history> directly below <parallel>           (outside wf_histb, no illegal run known)
      vb_initial_properb  the transition of <initial> names proper states  (outside wf_histb, no illegal run known)
-   and vb_docb / vb_hidden_freshb as above (document_conditions_needed_refuted). *)
+   and vb_docb / vb_hidden_freshb as above (document_conditions_needed_refuted).
+   NO LONGER a side condition: "the default transition of a <history> names proper states" (vb_default_properb) --
+   it follows from validation since the check IHistPseudoTarget of patches/C19-history-default-pseudo-target.diff
+   (validated_default_transitions_proper); without that check it was needed
+   (validation_accepts_history_default_to_history_refuted). *)
 Theorem validated_document_tables_wf : forall t l,
   vb_docb t = true -> vb_hidden_freshb t = true ->
   validate vv_fixed (gdoc_of_tree t) = Ok l -> no_fatal l = true -> vb_sideb t = true ->
@@ -301,10 +316,10 @@ Theorem validation_does_not_give_core_initial_refuted :
 Proof. exact core_initial_not_validated_refuted. Qed.
 Print Assumptions validation_does_not_give_core_initial_refuted.
 
-(* ---- the side conditions cannot be dropped: `breaks t clauses evs` = the repaired validator reports no fatal issue for
-   t, the side conditions [vb_docb; vb_hidden_freshb; ct_rootb; vb_hist_parentb; vb_default_properb;
+(* ---- the side conditions cannot be dropped: `breaks_v v t clauses evs` = the validator variant v reports no fatal
+   issue for t, the conditions [vb_docb; vb_hidden_freshb; ct_rootb; vb_hist_parentb; vb_default_properb;
    vb_initial_properb; vb_hist_disjointb] have the listed values, and the run of BOTH engine models on evs ends in a
-   configuration the oracle legal_configb rejects. *)
+   configuration the oracle legal_configb rejects; `breaks` = `breaks_v vv_fixed`. *)
 
 (* THE CONNECTION C02-K1 / C19: the document of known finding C02-K1 (kho_tree: s6{deep history h10, s7{shallow
    history h11, s8}}) IS ACCEPTED by the validator, meets every other side condition, and on event e both engines
@@ -314,15 +329,24 @@ Theorem validation_accepts_C02_K1_refuted : breaks kho_tree [true; true; true; t
 Proof. exact hist_disjoint_needed_refuted. Qed.
 Print Assumptions validation_accepts_C02_K1_refuted.
 
-(* CANDIDATE FINDING against the validator: <state id="s1"><history id="s2"><transition target="s2"/></history>
-   <state id="s3"><transition event="e" target="s2"/></state></state> is accepted (the scope check of a history's default
-   transition only asks for a child of the parent, a <history> qualifies); on e both engines end in {scxml, s1}: the
-   compound state s1 without an active child.  Likewise two histories naming each other. *)
+(* FINDING against the validator WITHOUT patches/C19-history-default-pseudo-target.diff (variant vv_hist_unchecked):
+   <state id="s1"><history id="s2"><transition target="s2"/></history><state id="s3"><transition event="e" target="s2"/>
+   </state></state> is accepted (the scope check of a history's default transition only asks for a child of the
+   parent, a <history> qualifies); on e both engines end in {scxml, s1}: the compound state s1 without an active
+   child.  Likewise two histories naming each other.  The repaired validator (vv_fixed) reports both documents. *)
 Theorem validation_accepts_history_default_to_history_refuted :
-  breaks w_hist_self [true; true; true; true; false; true; true] [[101%N]] /\
-  breaks w_hist_cycle [true; true; true; true; false; true; true] [[101%N]].
+  (breaks_v vv_hist_unchecked w_hist_self [true; true; true; true; false; true; true] [[101%N]] /\ validatedb w_hist_self = false) /\
+  (breaks_v vv_hist_unchecked w_hist_cycle [true; true; true; true; false; true; true] [[101%N]] /\ validatedb w_hist_cycle = false).
 Proof. split; [exact default_proper_needed_refuted | exact default_proper_needed_cycle_refuted]. Qed.
 Print Assumptions validation_accepts_history_default_to_history_refuted.
+
+(* WHAT: the former side condition follows from a clean validation by the repaired validator: in every validated
+   document the default transition of every <history> names proper states below the history's parent. *)
+Theorem validated_default_transitions_proper : forall t l,
+  vb_docb t = true -> vb_hidden_freshb t = true ->
+  validate vv_fixed (gdoc_of_tree t) = Ok l -> no_fatal l = true -> vb_default_properb t = true.
+Proof. intros t l Hd Hf Hv Hn. apply validated_default_proper_lemma; [exact Hd | exact Hf | now exists l]. Qed.
+Print Assumptions validated_default_transitions_proper.
 
 (* a document without any state is accepted (validate_accepts_stateless_document); its run is initialised with an
    empty configuration *)
